@@ -189,4 +189,22 @@ PROPS['C16'] = {
     'partial': 'proved: per-object injectivity (3 encodings), positional grid array, agent marker, agent-array injectivity, channel disjointness, compact density and order-independence. The assembled statement "two member states have equal dictionaries iff they are equal" is checked by the oracle on pairs, not yet stated as one Lean theorem.',
 }
 
+RESETM = 'harness.corr_reset'
+PROPS['C13'] = {
+    'targets': ['GridVerse.Props.C13'],
+    'theorem_files': [('GridVerse/Props/C13.lean', 'C13_')] + AG('Objects'),
+    'audit_prefix': 'C13_',
+    'families': {
+        'quick': [(RESETM, 'fam_reset_random', 16000, 16), (RESETM, 'fam_reset_grid', 0, 16)],
+        'thorough': [(RESETM, 'fam_reset_random', 1200000, 16), (RESETM, 'fam_reset_grid', 0, 16)],
+    },
+    'oracle_cases': {'quick': 16000, 'thorough': 1600000},
+    'trusted_base': [
+        'numpy linspace(..., dtype=int): the split vectors of rooms / memory_rooms are inputs of the model (the harness passes numpy\'s values)',
+        'numpy Generator.integers/choice/shuffle semantics as recorded by the proxy (request sequence and answers compared on every reset)',
+    ],
+    'assumptions': ['colour sets are passed sorted by value (the code sorts them since the F6 repair)'],
+    'partial': 'Lean theorems (complete cell-by-cell description for every stream, and rejection with ValueError) for empty, dynamic_obstacles, teleport, keydoor, memory. crossing, rooms and memory_rooms are modelled and tied by draw-log correspondence on shapes 1x1..8x8 + shipped shapes, their well-formedness is decided by the oracle on the implementation, not yet by a theorem.',
+}
+
 NOT_CLAIMED = {}
